@@ -54,7 +54,7 @@ func c18PoolInterp(t *testing.T, c c18Case) kit.Verdict {
 		bad = append(bad, fmt.Sprintf(format, args...))
 		mu.Unlock()
 	}
-	log, res := c18Play(t, c, func(clk *c18Clock, log *c18Log) (func(g, i int, op c18Op), func()) {
+	log, res := c18PlayRounds(t, c, true, func(clk *c18Clock, log *c18Log) (func(g, i int, op c18Op), func()) {
 		var nres atomic.Int64
 		create := func() interface{} {
 			r := &c18Res{id: int(nres.Add(1))}
@@ -222,6 +222,6 @@ func c18PoolGen(rt *rapid.T) c18Case {
 }
 
 func TestVerif_C18_pool(t *testing.T) {
-	kit.Run(t, c18ID, "pool", kit.Opts{Quick: 10000, Thorough: 480000}, c18PoolGen,
+	kit.Run(t, c18ID, "pool", kit.Opts{Quick: 6000, Thorough: 320000}, c18PoolGen,
 		func(c c18Case) kit.Verdict { return c18PoolInterp(t, c) })
 }
